@@ -186,6 +186,43 @@ def make(I):
     def abstract_outline_codes(I, patch):
         return _patch_arr(I, patch, 'outc', False)
 
+
+    def text_equal(I, a, b):
+        """two (possibly symbolic) texts are equal: same concrete pieces, and formatted numbers with equal precision and equal value"""
+        pa = [a] if isinstance(a, str) else Rope([a]).parts
+        pb = [b] if isinstance(b, str) else Rope([b]).parts
+        if len(pa) != len(pb):
+            return False
+        acc = []
+        for x, y in zip(pa, pb):
+            if isinstance(x, str) or isinstance(y, str):
+                if x != y:
+                    return False
+                continue
+            if x.kind != y.kind or x.prec != y.prec:
+                return False
+            if x.kind == 'f' or x.kind == 'str':
+                r = B.equal(I, x.value, y.value)
+                if r is False:
+                    return False
+                if r is not True:
+                    acc.append(zbool(r))
+            elif x.value is not y.value:
+                return False
+        return mk(z3.And(*acc), 'bool') if acc else True
+
+
+    def is_text(I, v):
+        return isinstance(v, (str, Rope))
+
+    def exact_number_text(I, value):
+        """text of a number in positional decimal notation that float() parses back to exactly `value` (A-PY)"""
+        return Rope([Fmt(value, None, 'exact')])
+
+    def piece_value(I, piece):
+        """numeric value denoted by one numeric text piece"""
+        return B.b_float(I, Rope([Fmt(piece[1], piece[2], piece[3])]))
+
     def arr_from_fn(I, shape, fn, dtype='float'):
         shape = tuple(shape) if not isinstance(shape, ShapeTag) else shape
         return Arr(shape, lambda idx: I.call(fn, list(idx), {}), dtype)
@@ -200,8 +237,8 @@ def make(I):
     def is_array(I, v):
         return isinstance(v, Arr)
 
-    def rope_fmt(I, value, prec):
-        return Rope([Fmt(value, prec)])
+    def rope_fmt(I, value, prec, kind='f'):
+        return Rope([Fmt(value, prec, kind)])
 
     def ghost(I):
         g = I.ctx.ghost.get('$dict')
@@ -222,7 +259,7 @@ def make(I):
     ns = dict(fresh_real=F('fresh_real', fresh_real), fresh_int=F('fresh_int', fresh_int), fresh_bool=F('fresh_bool', fresh_bool),
               fact=F('fact', fact), assume=F('assume', assume), implies=F('implies', implies), ite=F('ite', ite),
               oblige=F('oblige', oblige), event=F('event', event), is_symbolic=F('is_symbolic', is_symbolic),
-              unsupported=F('unsupported', unsupported), uf_real=F('uf_real', uf_real), uf=F('uf', uf), abstract_path_vertices=F('abstract_path_vertices', abstract_path_vertices), abstract_path_codes=F('abstract_path_codes', abstract_path_codes), abstract_outline_vertices=F('abstract_outline_vertices', abstract_outline_vertices), abstract_outline_codes=F('abstract_outline_codes', abstract_outline_codes), is_selection=F('is_selection', is_selection), selection_parts=F('selection_parts', selection_parts), is_nonfinite=F('is_nonfinite', is_nonfinite), lemma=F('lemma', lemma), general=F('general', general), arr_like=F('arr_like', arr_like), is_bool_scalar=F('is_bool_scalar', is_bool_scalar), is_bool_array=F('is_bool_array', is_bool_array), dtype_of=F('dtype_of', dtype_of), uf_bool=F('uf_bool', uf_bool),
+              unsupported=F('unsupported', unsupported), uf_real=F('uf_real', uf_real), uf=F('uf', uf), is_text=F('is_text', is_text), exact_number_text=F('exact_number_text', exact_number_text), piece_value=F('piece_value', piece_value), text_equal=F('text_equal', text_equal), abstract_path_vertices=F('abstract_path_vertices', abstract_path_vertices), abstract_path_codes=F('abstract_path_codes', abstract_path_codes), abstract_outline_vertices=F('abstract_outline_vertices', abstract_outline_vertices), abstract_outline_codes=F('abstract_outline_codes', abstract_outline_codes), is_selection=F('is_selection', is_selection), selection_parts=F('selection_parts', selection_parts), is_nonfinite=F('is_nonfinite', is_nonfinite), lemma=F('lemma', lemma), general=F('general', general), arr_like=F('arr_like', arr_like), is_bool_scalar=F('is_bool_scalar', is_bool_scalar), is_bool_array=F('is_bool_array', is_bool_array), dtype_of=F('dtype_of', dtype_of), uf_bool=F('uf_bool', uf_bool),
               arr_from_fn=F('arr_from_fn', arr_from_fn), arr_at=F('arr_at', arr_at), is_array=F('is_array', is_array),
               cos=F('cos', N.np_cos), sin=F('sin', N.np_sin), sqrt=F('sqrt', lambda I, x: B.sqrt_(I, x)), PI=N.PI,
               deepcopy=F('deepcopy', lambda I, v: I.ext_modules and __import__('pyvc.stdlib_models', fromlist=['x']).deepcopy(I, v)),
